@@ -38,6 +38,12 @@ Theorem C32_nothing_withheld_partial : forall (cf : cfg) (h : list wmsg) (sched 
 Proof. exact poll_pending_complete. Qed.
 Print Assumptions C32_nothing_withheld_partial.
 
+(* ... and the panic site of SignalStream::new (`.expect("`NameOwnerChanged` signal has no args")`) is never reached. *)
+Theorem C32_never_panics_partial : forall (cf : cfg) (h : list wmsg) (sched : list action),
+  bus_history cf h = true -> ~ Known_C32 cf h sched -> w_ph (run cf h sched) <> PhPanic.
+Proof. exact never_panics. Qed.
+Print Assumptions C32_never_panics_partial.
+
 (* Ownership claims not sent by the bus driver never change what is yielded: replace every forged
    NameOwnerChanged (any sender but org.freedesktop.DBus, any path, any claimed owner) by another forged one or
    by noise, at the same positions — under every schedule the run yields the same and is in the same phase.
